@@ -1082,3 +1082,57 @@ func init() {
 		},
 	})
 }
+
+func init() {
+	register(&Rule{
+		ID: "C17.R23", Props: []string{"C17", "C08", "C11"}, Min: 2,
+		Doc: "what is remembered about a struct is remembered under its address *and* its type: the maps in which the struct → map converter keeps the structs on the current path and the finished conversions are keyed by something that includes the reflect.Type — not by the bare address. In Go a struct and its first field have one address: `o.First = &o.Inner` is no cycle, and `a.C` and `&a.C.B` are two values; keyed by address alone the first is converted to an empty map and the second receives the other's conversion — the same data filled as a map renders differently from the struct",
+		Run: func(p *Prog, c *Ctx) {
+			fn := p.MustFn("reflect.structToMap")
+			n := 0
+			seenT := map[string]bool{}
+			walkFuncTree(fn, func(f *ssa.Function) {
+				eachInstr(f, func(in ssa.Instruction) {
+					var m ssa.Value
+					switch x := in.(type) {
+					case *ssa.Lookup:
+						m = x.X
+					case *ssa.MapUpdate:
+						m = x.Map
+					default:
+						return
+					}
+					mt, ok := m.Type().Underlying().(*types.Map)
+					if !ok {
+						return
+					}
+					// the bookkeeping maps: keyed by an address, or by a struct that holds one
+					holdsAddr, holdsType := false, false
+					switch k := mt.Key().Underlying().(type) {
+					case *types.Basic:
+						holdsAddr = k.Kind() == types.Uintptr || k.Kind() == types.UnsafePointer
+					case *types.Struct:
+						for i := 0; i < k.NumFields(); i++ {
+							ft := k.Field(i).Type()
+							if b, isB := ft.Underlying().(*types.Basic); isB && (b.Kind() == types.Uintptr || b.Kind() == types.UnsafePointer) {
+								holdsAddr = true
+							}
+							if isNamed(ft, "reflect", "Type") {
+								holdsType = true
+							}
+						}
+					}
+					if !holdsAddr || seenT[mt.String()] {
+						return
+					}
+					seenT[mt.String()] = true
+					n++
+					c.check(holdsType, fmt.Sprintf("structToMap: bookkeeping map %s is keyed by address and type", mt.String()), p.instrPos(in), "the key holds a reflect.Type next to the address", "the map is keyed by the address alone: a struct and its first field (o and &o.Inner) are one address — the field is taken for the struct itself (a cycle: an empty map) or handed the struct's conversion")
+				})
+			})
+			if n == 0 {
+				undecided("structToMap keeps no map keyed by an address")
+			}
+		},
+	})
+}
